@@ -98,6 +98,21 @@ def seeds_of(prop):
     return out
 
 
+def benign_all():
+    """behaviour-preserving changes (/verif/benign/<name>/): every check must stay silent on every one of them"""
+    out = []
+    for d in sorted(glob.glob(os.path.join(VERIF, "benign", "C*-b*"))):
+        pf, mf = os.path.join(d, "patch.diff"), os.path.join(d, "meta.json")
+        if not (os.path.exists(pf) and os.path.exists(mf)):
+            continue
+        meta = json.load(open(mf))
+        if meta.get("status") == "rejected":
+            continue
+        out.append({"name": os.path.basename(d), "patch": open(pf).read(), "obsolete": True,
+                    "summary": (meta.get("summary") or "")[:120], "caught_by": None})
+    return out
+
+
 def overrides_for(prog, seed):
     """-> {repo-relative path: patched source}; raises PatchDoesNotApply"""
     out = {}
